@@ -51,6 +51,50 @@ func c13Dictionary(thorough bool) []string {
 	return d
 }
 
+func idx0(dict []string, n string) int {
+	for i, d := range dict {
+		if d == n {
+			return i
+		}
+	}
+	return 0
+}
+
+// c13OutputShaped derives names from pseudonyms the tool itself produced (refs) and from fixed digit strings.
+func c13OutputShaped(pre string, refs []string) []string {
+	digits := []string{"deadbeefdeadbeef", "0123456789abcdef", "0000000000000000", "ffffffffffffffff"}
+	out := []string{}
+	seen := map[string]bool{}
+	for _, r := range refs {
+		if !seen[r] && !strings.Contains(r, ".") && !strings.HasPrefix(r, "$") {
+			seen[r] = true
+			out = append(out, r)
+		}
+		if len(r) >= 16 {
+			digits = append(digits, r[len(r)-16:])
+		}
+	}
+	for _, hx := range digits {
+		for _, s := range []string{hx, "_" + hx, "id_" + hx, "X_" + hx, "REDACTED_" + hx, pre + "_" + hx, pre + "__" + hx, pre + "_" + hx + "_" + hx,
+			strings.ToUpper(hx), hx[:15], hx + "0", "_" + hx[:15], "_" + hx + "0", pre + "_" + hx + "x", "x" + pre + "_" + hx, pre + "_" + strings.ToUpper(hx),
+			pre + "-" + hx, hx + "_" + hx, "a_b_" + hx} {
+			if !seen[s] && !strings.Contains(s, ".") && !strings.HasPrefix(s, "$") {
+				seen[s] = true
+				out = append(out, s)
+			}
+		}
+	}
+	// second generation: what the tool makes of the names above is again a name
+	n := len(out)
+	for i := 0; i < n; i++ {
+		if h := HashName(out[i]); !seen[h] && !strings.Contains(h, ".") && !strings.HasPrefix(h, "$") {
+			seen[h] = true
+			out = append(out, h)
+		}
+	}
+	return out
+}
+
 var c13Replacements = []struct {
 	name string
 	f    Flags
@@ -129,6 +173,26 @@ func c13Run(c *Ctx) {
 					map[string]any{"kind": "hashname", "name": name, "other": other, "replacement": pre}, nil)
 			}
 			byPseud[res[i]] = name
+		}
+		// names shaped like (parts of) the tool's own output under this and other replacement texts: a whole
+		// pseudonym, its digits alone, the digits behind another prefix, near misses, a pseudonym of a pseudonym
+		for _, s := range c13OutputShaped(pre, []string{res[idx0(dict, "a")], res[idx0(dict, "ab")], res[idx0(dict, "field_1_Name")], res[idx0(dict, "日")]}) {
+			h := HashName(s)
+			c.Eval(1)
+			c.Distinct(rp.name + "\x00shaped\x00" + s)
+			if !form.MatchString(h) || h == s {
+				c.Violate("form:output-shaped-name", fmt.Sprintf("pseudonym %q of the output-shaped component %q is not a fresh <replacement>_<16 hex> (replacement %q)", h, s, pre), int64(len(s)),
+					map[string]any{"kind": "hashname", "name": s, "replacement": pre}, nil)
+			}
+			if other, ok := byPseud[h]; ok && other != s {
+				c.Violate("collision:output-shaped-name", fmt.Sprintf("components %q and %q share the pseudonym %q", other, s, h), int64(len(s)),
+					map[string]any{"kind": "hashname", "name": s, "other": other, "replacement": pre}, nil)
+			}
+			byPseud[h] = s
+			if h2 := HashName(s); h2 != h {
+				c.Violate("unstable:second-call", fmt.Sprintf("HashName(%q) returned %q first and %q later (replacement %q)", s, h, h2, pre), int64(len(s)),
+					map[string]any{"kind": "hashname", "name": s, "replacement": pre}, nil)
+			}
 		}
 		c.Count("components", int64(len(dict)))
 		c.Count("distinct_pseudonyms_"+rp.name, 0)
